@@ -695,4 +695,105 @@ def runRulesPathGuards : List String := [
   "(the per-entry path)"
 ]
 
+/-- `ListAccounts` (services/lister/standard/listaccounts.go), the string handed to `regexp.Compile`, as a function of the account part of the path (the second result of `e2wallet.WalletAndAccountNames(path)`):
+    every assignment to that local between the call that produced it and `regexp.Compile`, in source order, as one `let` each
+    (`if C { x = e }` ↦ `if C then e else x`; `strings.HasPrefix` / `HasSuffix` ↦ `String.startsWith` / `endsWith`; `fmt.Sprintf` of `%s` verbs ↦ `++`); model counterpart: `Dirk.listerAnchor`. -/
+def listAnchorGen (accountPath : String) : String :=
+  let p1 := if !(String.startsWith accountPath "^") then "^" ++ accountPath else accountPath
+  let p2 := if !(String.endsWith p1 "$") then p1 ++ "$" else p1
+  p2
+
+/-- the guards of `ListAccounts`, as written in the source, in order -/
+def listAnchorGuards : List String := [
+  "if !strings.HasPrefix(accountPath, \"^\") { accountPath = fmt.Sprintf(\"^%s\", accountPath) }",
+  "if !strings.HasSuffix(accountPath, \"$\") { accountPath = fmt.Sprintf(\"%s$\", accountPath) }",
+  "accountRegex, err = regexp.Compile(accountPath)"
+]
+
+/-- `ListAccounts` (services/lister/standard/listaccounts.go), the body of the path loop up to the account loop, for ONE path: 0 = the path is skipped (`continue`, or the account loop is not reached),
+    1 = the account loop is reached with the regular expression nil (every account of the wallet is a candidate), 2 = it is reached with a compiled
+    expression (the candidates are the accounts it matches).  namesErr: `e2wallet.WalletAndAccountNames(path)` returned an error; walletEmpty / accountEmpty:
+    its first / second result is "" (the second: as returned, before the anchoring); compileErr: `regexp.Compile(listAnchorGen …)` returned an error (then
+    the expression is nil); fetchWalletErr / fetchAccountsErr: `s.fetcher.FetchWallet(ctx, path)` / `s.fetcher.FetchAccounts(ctx, wallet.Name())` returned an error.
+    An input is only read where the Go has made the call.  `break`, `return`, labels are refused; model counterpart: `Dirk.listerPath`. -/
+def listPathGen (namesErr walletEmpty accountEmpty compileErr fetchWalletErr fetchAccountsErr : Bool) : Nat :=
+  if namesErr then 0
+  else if walletEmpty then 0
+  else if !accountEmpty then
+    if compileErr then 0
+    else if fetchWalletErr then 0
+    else if fetchAccountsErr then 0
+    else 2
+  else if fetchWalletErr then 0
+  else if fetchAccountsErr then 0
+  else 1
+
+/-- the guards of `ListAccounts`, as written in the source, in order -/
+def listPathGuards : List String := [
+  "walletName, accountPath, err := e2wallet.WalletAndAccountNames(path)",
+  "if err != nil { continue }",
+  "if walletName == \"\" { continue }",
+  "var accountRegex *regexp.Regexp",
+  "if accountPath != \"\" { if !strings.HasPrefix(accountPath, \"^\") { accountPath = fmt.Sprintf(\"^%s\", accountPath) }; if !strings.HasSuffix(accountPath, \"$\") { accountPath = fmt.Sprintf(\"%s$\", accountPath) }; accountRegex, err = regexp.Compile(accountPath); if err != nil { continue } }",
+  "wallet, err := s.fetcher.FetchWallet(ctx, path)",
+  "if err != nil { continue }",
+  "walletAccounts, err := s.fetcher.FetchAccounts(ctx, wallet.Name())",
+  "if err != nil { continue }",
+  "for _, walletAccount := range walletAccounts { … }"
+]
+
+/-- `ListAccounts` (services/lister/standard/listaccounts.go), the body of the account loop, for ONE account of the wallet: is `accounts = append(accounts, walletAccount)` executed?  hasRegex: the regular
+    expression is not nil (`listPathGen … = 2`); regexMatches: `MatchString(<listShapeGen: regex matched against>)` (only called where the expression is known
+    to be non-nil); accessOk: `s.checkAccess(ctx, credentials, <checkAccess name>, <checkAccess action>)` returned `core.ResultSucceeded`; hasPubKey: the type
+    assertion `walletAccount.(e2wtypes.AccountPublicKeyProvider)` holds; rulesApproved: `s.ruler.RunRules(ctx, credentials, <RunRules action>, <RunRules data>)[0]`
+    is `rules.APPROVED`.  An input is only read where the Go has made the call.  `break`, `return`, a second append are refused; model counterpart: `Dirk.listAccounts (the filter predicate)`. -/
+def listAccountGen (hasRegex regexMatches accessOk hasPubKey rulesApproved : Bool) : Bool :=
+  if !hasRegex || regexMatches then
+    if !accessOk then false
+    else if !hasPubKey then false
+    else if rulesApproved then true
+    else false
+  else false
+
+/-- … the name handed to `checkAccess`, as a function of `wallet.Name()` and `walletAccount.Name()` -/
+def listCheckedNameFnGen (walletName accountName : String) : String :=
+  walletName ++ "/" ++ accountName
+
+/-- … the action handed to `checkAccess`, by value (services/ruler/service.go) -/
+def listActionGen : String := "Access account"
+
+/-- the guards of `ListAccounts`, as written in the source, in order -/
+def listAccountGuards : List String := [
+  "if accountRegex == nil || accountRegex.MatchString(walletAccount.Name()) { accountName := fmt.Sprintf(\"%s/%s\", wallet.Name(), walletAccount.Name()); checkRes := s.checkAccess(ctx, credentials, accountName, ruler.ActionAccessAccount); if checkRes != core.ResultSucceeded { continue }; var pubKey []byte; pubKeyProvider, isProvider := walletAccount.(e2wtypes.AccountPublicKeyProvider); if !isProvider { continue }; pubKey = pubKeyProvider.PublicKey().Marshal(); if compositePubKeyProvider, isProvider := walletAccount.(e2wtypes.AccountCompositePublicKeyProvider); isProvider { pubKey = compositePubKeyProvider.CompositePublicKey().Marshal() }; data := &rules.AccessAccountData{ Paths: paths, }; rulesData := []*ruler.RulesData{ { WalletName: wallet.Name(), AccountName: walletAccount.Name(), PubKey: pubKey, Data: data, }, }; results := s.ruler.RunRules(ctx, credentials, ruler.ActionAccessAccount, rulesData); if results[0] == rules.APPROVED { accounts = append(accounts, walletAccount) } }"
+]
+
+/-- `ListAccounts` (services/lister/standard/listaccounts.go), canonical facts, every local printed as its ROLE (path = the path loop's variable; walletName, accountPath = the results of WalletAndAccountNames; wallet = what
+    FetchWallet returned; walletAccounts = what FetchAccounts returned; walletAccount = the account loop's variable; accounts = the slice returned), string and data
+    locals inlined, `ruler.ActionX` by value (services/ruler/service.go).  Both loops are plain `for _, x := range` loops (in order); the only write to `accounts`
+    is the append shown, so the result is the concatenation over the paths, in path order, of the appended accounts in the order FetchAccounts gave them; model counterpart: `Dirk.listAccounts (what is handed to which call; flatMap over the paths, filter over the accounts)`. -/
+def listShapeGen : List String := [
+  "nil credentials: return core.ResultFailed, nil",
+  "result slice: accounts := make([]e2wtypes.Account, 0), before the path loop",
+  "path loop: for _, path := range paths",
+  "names: e2wallet.WalletAndAccountNames(path)",
+  "wallet: FetchWallet(ctx, path)",
+  "accounts of: FetchAccounts(ctx, wallet.Name())",
+  "account loop: for _, walletAccount := range walletAccounts",
+  "regex matched against: walletAccount.Name()",
+  "checkAccess name: fmt.Sprintf(\"%s/%s\", wallet.Name(), walletAccount.Name())",
+  "checkAccess action: Access account",
+  "RunRules action: Access account",
+  "RunRules data: []*ruler.RulesData{{WalletName: wallet.Name(), AccountName: walletAccount.Name(), PubKey: pubKey, Data: &rules.AccessAccountData{Paths: paths}}}",
+  "append: accounts = append(accounts, walletAccount)",
+  "finally: return core.ResultSucceeded, accounts"
+]
+
+/-- the guards of `ListAccounts`, as written in the source, in order -/
+def listShapeGuards : List String := [
+  "if credentials == nil { return core.ResultFailed, nil }",
+  "accounts := make([]e2wtypes.Account, 0)",
+  "for _, path := range paths { … }",
+  "return core.ResultSucceeded, accounts"
+]
+
 end Dirk.Gen
